@@ -509,7 +509,7 @@ def report(mod, modname, pid, tier, seed, cases, results, findings, timeout, cap
         "property_id": pid,
         "tier": tier,
         "seed": seed,
-        "level": getattr(mod, "LEVEL", "exploration"),
+        "level": _level(pid, mod),
         "coverage": cov,
         "assumptions": list(getattr(mod, "ASSUMPTIONS", [])),
         "wall_s": round(time.time() - t_start, 3),
@@ -530,6 +530,18 @@ def report(mod, modname, pid, tier, seed, cases, results, findings, timeout, cap
         _out(f"BROKEN property={pid}: {broken}")
         return 2
     return 1 if confirmed else 0
+
+
+def _level(pid, mod):
+    """the level claimed in MANIFEST.json (vp/manifest_table.py is its single source) wins over a module's own LEVEL"""
+    try:
+        from vp.manifest_table import CHECKS
+
+        if pid in CHECKS:
+            return CHECKS[pid]["level"]
+    except Exception:
+        pass
+    return getattr(mod, "LEVEL", "exploration")
 
 
 def _samples(cases):
